@@ -52,7 +52,11 @@ func decodeValue(tmap *pgtype.Map, t *Type, format int16, src []byte) (Value, *P
 		if err := tmap.Scan(t.OID, format, src, &b); err != nil {
 			return nil, bad(err)
 		}
-		return string(b), nil
+		norm, err := normalizeJSONB(b)
+		if err != nil {
+			return nil, bad(err)
+		}
+		return norm, nil
 	case tBytea:
 		var b []byte
 		if err := tmap.Scan(t.OID, format, src, &b); err != nil {
